@@ -1,5 +1,5 @@
 (* Properties/C15.v — rejected builder calls have no effect; no dangling ids (C15) *)
-From HpoV Require Import Gen.Consts Model.Base Model.Group Model.Onto Model.Dump Model.Script Run.World Run.Ser Run.C15 Proofs.C15P Proofs.ScriptP Proofs.ClosureP.
+From HpoV Require Import Gen.Consts Model.Base Model.Group Model.Onto Model.Dump Model.Script Run.World Run.Ser Run.C15 Proofs.C15P Proofs.ScriptP Proofs.ClosureP Model.Dump Proofs.WalkP.
 
 Theorem C15_referentially_closed : forall d, ref_closed d = true ->
   (forall t, In t (do_terms d) ->
@@ -39,8 +39,17 @@ Theorem C15_model_add_parent_keeps_links_resolving : forall o parent child o', b
   b_add_parent parent child o = Ok o' -> binv (o_arena o').
 Proof. exact add_parent_keeps_binv. Qed.
 
+(* NO DANGLING IDS, FOR EVERY BUILDER SCRIPT: whatever calls are made and whichever of them fail, the
+   complete walk through the read API of the finished ontology — every parents() / children() /
+   all_parents() / genes() / omim_diseases() / orpha_diseases() iterator of every term and
+   to_hpo_set of every record, each of which panics on an id that does not resolve — returns *)
+Theorem C15_builder_ontologies_walk_returns : forall icf s codes o, run_script icf s = Ok (codes, Ok o) ->
+  exists d, dump_onto o = Ok d.
+Proof. exact builder_walk_returns. Qed.
+
 Print Assumptions C15_referentially_closed.
 Print Assumptions C15_same_observation.
 Print Assumptions C15_model_failed_add_parent_no_trace.
 Print Assumptions C15_model_failed_annotate_no_trace.
 Print Assumptions C15_model_add_parent_keeps_links_resolving.
+Print Assumptions C15_builder_ontologies_walk_returns.
